@@ -8,7 +8,7 @@ CFG = dict(
                "meets its rule (outside F25); tagshow/taghide and tagfocus/tagignore change exactly what they describe; refuted twins "
                "for F16, F24, F25 with concrete witnesses. The composition inside applyFocus and the tag-filter grammar "
                "(key=value, comma lists, ranges with unit scaling) are modelled and covered by correspondence + the evaluated "
-               "pipeline specification, not by a theorem (full_statement_apply_focus).",
+               "pipeline specification, not by a theorem (full_statement_apply_focus). End-to-end layer: glue model M_Driver (merge header, RemoveUninteresting once, tag roots/leaves before the filters irrespective of relative_percentages, every command/request from a pristine copy) tied to driver.PProf / interactive / web by correspondence; add_label_nodes keeps samples, values, labels.",
     level_note="Regexp engine abstract: theorems quantify over every match predicate, each case ships Go regexp's match table; "
                "numeric ranges: model uses exact rationals (M_Measure.scale over the regenerated unit table), generators keep values "
                "where float64 comparison is exact; relative_percentages (order of applyFocus vs report.New) is not modelled.",
@@ -18,13 +18,14 @@ CFG = dict(
          "tagfocus/tagignore drawn from a pool of regexps, key=value, comma lists, ranges with units/signs/overflow, and random subsets of "
          "all ten options incl. invalid expressions; profiles with shared and inlined locations, unsymbolized locations, empty stacks, "
          "locations without mapping, labels and numeric labels with units; distinct = sha256 of the input term; non-trivial = the "
-         "filter changed samples or locations",
+         "filter changed samples or locations; END-TO-END (op e2e): the same profiles and option pools through driver.PProf with flags (-proto / -traces via -output), interactive sessions (assignments, cmd >file, interleaved unfiltered commands) and the web /top handler (URL parameters), output parsed back (proto re-read, traces text, top rows); deterministic streams for session histories, URL-encoded expressions, tagroot/tagleaf x filters x relative_percentages, numeric filters on non-multiples",
     spec_what="samples / frames / labels kept by the filters differ from the C06 statement (frame-sample rules of S_Filter.v)",
     trusted_base=["Go regexp engine (its answers are shipped as a match table in every case)",
                   "translator gen-unittable + M_Measure.scale (C15) for numeric tag ranges; float64 vs exact rationals",
                   "numLabelUnits computed by Profile.NumLabelUnits and shipped as input",
                   "export shim internal/driver/zz_verif_c06.go (calls applyFocus with a config built from defaultConfig)"],
-    assumptions=["profiles are valid in the sense of wf_profile (a fragment of Profile.CheckValid)",
+    assumptions=["end-to-end: -proto/-traces of the command line and sessions, /top of the web UI; other report formats, -base/-diff_base, saved configs, numeric tagroot keys not covered",
+                 "profiles are valid in the sense of wf_profile (a fragment of Profile.CheckValid)",
                  "composition of the applyFocus stages and compile_tag_filter's grammar: correspondence + evaluated checker only",
                  "relative_percentages ordering in generateRawReport not modelled"],
 )
